@@ -13,7 +13,7 @@ RULE = ("seeded generator over public parents (from scalar classes incl. x-coord
         "parities), chain-code classes, depth 0..254, construction form (ctor / parsed from xpub string, bytes, stream) and "
         "index classes in [0,2^31) for derivation, [2^31,2^32) for refusal; paired private/public walks of length 0..10; "
         "distinct = distinct (monitor, exact case) digests; every case recomputes CKDpub independently"
-        " EXTENSIONS: + colliding 4-byte fingerprints (committed corpus), refusal through path TEXT with decorated hardened markers and through descending / straddling intervals, path shapes, stream forms")
+        " EXTENSIONS: + colliding 4-byte fingerprints (committed corpus), refusal through path TEXT with decorated hardened markers and through descending / straddling intervals, path shapes, stream forms, nodes of a caller-made subclass, public parents with a coordinate in [n, p) (committed corpus)")
 LEVEL_TEXT = ("Every PubKeyNode.ckd execution on public-only nodes is adjudicated by an independent CKDpub model and, in "
               "paired walks, against the private derivation step by step (keys, chain codes, fingerprints, metadata, printed "
               "xpubs). Hardened indexes must raise and leave no child behind. Held on K executions over boundary classes + "
@@ -317,7 +317,7 @@ def gen_pub_parent(rnd, lzx):
     d = gen.depth(rnd)
     return {"k": k, "c": c, "depth": d, "ktag": ktag + (":odd" if secp.gmul(k)[1] & 1 else ":even"), "ctag": ctag,
             "pindex": 0 if d == 0 else gen.index(rnd)[1], "pfp": b"\x00" * 4 if d == 0 else gen.rbytes(rnd, 4),
-            "testnet": rnd.random() < 0.5, "form": rnd.choice(["ctor", "str", "str", "bytes", "stream", "stream-offset", "stream-second"]), "vpurpose": rnd.choice([44, 44, 49, 84])}
+            "testnet": rnd.random() < 0.5, "form": rnd.choice(["ctor", "str", "str", "bytes", "stream", "stream-offset", "stream-second", "sub-ctor", "sub-str"]), "vpurpose": rnd.choice([44, 44, 49, 84])}
 
 
 def run(ctx):
@@ -335,6 +335,16 @@ def run(ctx):
                             "ktag": "K:corpus", "ctag": "c:random", "testnet": bool(n & 1),
                             "form": ("ctor", "str")[n % 2], "index": i}
                     judge_ckd_pub(ctx, case)
+        # public parents nobody holds the secret of, with a coordinate in [n, p) (committed corpus, re-certified at load)
+        hc = gen.high_coordinate_points()
+        ctx.extra["high_coordinate_point_corpus"] = len(hc)
+        for pi, pt in enumerate(hc):
+            n += 1
+            if ctx.mine(n):
+                from ..ref import secp as _secp
+                judge_ckd_pub(ctx, {"K": _secp.ser(pt, True), "c": gen.rbytes(rnd, 32), "depth": 1, "pindex": 5, "pfp": b"\x01\x02\x03\x04",
+                                    "ktag": "K:coordinate>=n", "ctag": "c:random", "testnet": bool(pi & 1), "form": ("ctor", "str")[pi % 2],
+                                    "index": (0, 1, H - 1)[pi % 3]})
         # parents whose 4-byte fingerprints COLLIDE, used one after the other in this process, same chain code and index
         # (a truncated identifier is not an identity)
         for pi, (ka, kb) in enumerate(gen.fingerprint_collisions()):
